@@ -218,7 +218,7 @@ theorem set_time_request (t : Nat) (ht : t < 2 ^ 64) :
   have h2 : packInt .uint (.int 6) = .ok (leBytes 2 6) := rfl
   have h3 := (RT.packInt_nat .ulint t rfl (by simp [IntK.hi, IntK.signed, IntK.size]; omega)).1
   simp only [IntK.size] at h3
-  simp only [encode, encodeMembersSeq, PyVal.iter?, PyVal.seq?, h1, h2, h3, bind, Except.bind, List.append_nil, List.append_assoc]
+  simp only [encode, encodeMembersSeq, argOf, PyVal.iter?, PyVal.seq?, h1, h2, h3, bind, Except.bind, List.append_nil, List.append_assoc]
 
 /-- reply framing: what the target frames is what the client's response class extracts -/
 theorem reply_data_returned (connected : Bool) (svc session toId seq : Nat) (context data : Bytes)
